@@ -11,6 +11,10 @@ def ingressesOf : String → List IngressSt
   | "garbage" => [⟨false, "", false, ""⟩]
   | "nohost" => [⟨true, "https", false, ""⟩]
   | "https+localhost" => [⟨true, "https", true, "app.example.com"⟩, ⟨true, "http", true, "localhost"⟩]
+  | "http-localhost-upper" => [⟨true, "http", true, "localhost"⟩]                       -- host names compare case-insensitively
+  | "http-localhost-prefix" => [⟨true, "http", true, "localhost.example.com"⟩]
+  | "http-localhost+prefix" => [⟨true, "http", true, "localhost"⟩, ⟨true, "http", true, "localhost.nais.io"⟩]
+  | "http-remote" => [⟨true, "http", true, "app.example.com"⟩]
   | _ => []
 
 def handleStart20 (l : Line) : List Verdict :=
@@ -19,12 +23,13 @@ def handleStart20 (l : Line) : List Verdict :=
     let b := fun k => l.bool? k
     let key ← g "key"; let ingress ← g "ingress"; let jwk ← g "jwk"; let wellknown ← g "wellknown"; let mode ← g "mode"; let redis ← g "redis"
     let upstream ← g "upstream"; let shutdown ← g "shutdown"; let alg ← g "alg"; let acr ← g "acr"; let locale ← g "locale"; let redissecret ← g "redissecret"
+    let disco ← g "disco"
     let listening ← b "listening"
     let exitcode ← l.int? "exitcode"
     let leak ← l.str? "leak"
     let sso := mode != "standalone"
     let c : StartCfg := {
-      key := match key with | "ok" => .bytes 32 | "short" => .bytes 16 | "notb64" => .notBase64 | "crlf" => .empty | _ => .absent,
+      key := match key with | "ok" => .bytes 32 | "short" => .bytes 16 | "short31" => .bytes 31 | "long33" => .bytes 33 | "long64" => .bytes 64 | "notb64" => .notBase64 | "crlf" => .empty | _ => .absent,
       ingresses := ingressesOf ingress, clientId := ← b "clientid",
       clientJwk := match jwk with | "valid" => .valid | "malformed" => .malformed | _ => .absent, clientSecret := ← b "secret",
       wellKnown := wellknown != "absent", discoveryReachable := wellknown != "unreachable",
@@ -36,18 +41,20 @@ def handleStart20 (l : Line) : List Verdict :=
       upstreamIp := upstream == "both" || upstream == "iponly" || upstream == "port70000" || upstream == "portneg",
       upstreamPort := match upstream with | "both" => 8081 | "portonly" => 8081 | "port70000" => 70000 | "portneg" => -5 | _ => 0,
       graceful := match shutdown with | "equal" => 5 | "less" => 2 | _ => 30, waitBefore := match shutdown with | "ok" => 0 | _ => 5,
-      algIsJwa := alg != "BOGUS", algInDiscovery := alg == "RS256",
-      acr := acr != "none", acrInDiscovery := acr != "unsupported", locale := locale != "none", localeInDiscovery := locale != "unsupported" }
+      algIsJwa := alg != "BOGUS", algInDiscovery := alg == "RS256" && disco != "noalg",
+      acr := acr != "none", acrInDiscovery := acr != "unsupported" && disco != "noacr" && disco != "emptyacr",
+      locale := locale != "none", localeInDiscovery := locale != "unsupported" && disco != "nolocale" }
     let model := startOk c
     -- Spec: the documented rules, evaluated rule by rule (first failing rule names the violation)
     let rules : List (Bool × String) := [
-      (key == "absent" || key == "ok", "encryption_key"), (ingress == "https" || ingress == "http-localhost" || ingress == "https+localhost", "ingress"),
+      (key == "absent" || key == "ok", "encryption_key"), (ingress != "absent" && ingress != "ftp" && ingress != "garbage" && ingress != "nohost", "ingress"),
       (mode == "proxy" || (c.clientId && (jwk == "valid" || (jwk == "absent" && c.clientSecret)) && wellknown == "ok"), "client_settings"),
       (mode != "badmode", "sso_mode"), (!sso || (c.redis && c.ssoCookieName), "sso_store_and_cookie_name"),
       (mode != "proxy" || c.ssoServerUrlParses, "sso_server_url"), (mode != "server" || (c.ssoDomain && c.ssoDefaultRedirectParses), "sso_domain_default_redirect"),
-      (c.cookieSecure || ingress == "http-localhost", "insecure_cookie_non_localhost"), (c.sameSiteValid, "same_site"),
+      (c.cookieSecure || ingress == "http-localhost" || ingress == "http-localhost-upper" || ingress == "absent", "insecure_cookie_non_localhost"), (c.sameSiteValid, "same_site"),
       (upstream == "none" || upstream == "both", "upstream"), (shutdown == "ok", "shutdown_periods"),
-      (mode == "proxy" || (alg == "RS256" && acr != "unsupported" && locale != "unsupported"), "discovery_support"), (alg != "BOGUS", "signing_alg"),
+      (mode == "proxy" || (alg == "RS256" && disco != "noalg" && (acr == "none" || (acr != "unsupported" && disco != "noacr" && disco != "emptyacr")) &&
+                           (locale == "none" || (locale != "unsupported" && disco != "nolocale"))), "discovery_support"), (alg != "BOGUS", "signing_alg"),
       (c.redisReachable || !c.redis, "store_unreachable")]
     let failed := rules.filterMap fun (ok, n) => if ok then none else some n
     let viol : List (String × String) :=
